@@ -287,11 +287,24 @@ static void run_library(int variant, int ui) {
     // ---- (e) target units
     {
         const double targets[] = {UNITS[ui].unit, 1e-6, 1e-9, 2e-6, 1e-3};
-        for (double tu : targets) {
+        // native load with the default tolerance (tolerance <= 0 => precision / unit), for the tolerance comparison
+        ErrorCode de = ErrorCode::NoError;
+        Library full0 = read_gds(path.c_str(), 0, 0, NULL, &de);
+        for (int pass = 0; pass < 2 * (int)(sizeof targets / sizeof targets[0]); pass++) {
+            double tu = targets[pass / 2];
+            bool default_tol = pass % 2;
             ErrorCode ue = ErrorCode::NoError;
-            Library ul = read_gds(path.c_str(), tu, 1e-2, NULL, &ue);
-            cx.what = fmt("load with target unit %g", tu);
+            Library ul = read_gds(path.c_str(), tu, default_tol ? 0 : 1e-2, NULL, &ue);
+            cx.what = fmt("load with target unit %g%s", tu, default_tol ? " and default tolerance" : "");
             double f = full.unit / tu;
+            if (default_tol) {
+                // the default path tolerance is a length too: it must be the native default rescaled
+                for (uint64_t ci = 0; ci < full0.cell_array.count && ci < ul.cell_array.count; ci++)
+                    for (uint64_t k = 0; k < full0.cell_array[ci]->flexpath_array.count && k < ul.cell_array[ci]->flexpath_array.count; k++) {
+                        double t0 = full0.cell_array[ci]->flexpath_array[k]->spine.tolerance, t1 = ul.cell_array[ci]->flexpath_array[k]->spine.tolerance;
+                        if (!close_rel(t0 * f, t1, 1e-9)) { viol(cx, "unit", "path-tolerance", {{"factor", jnum(f)}}, fmt("default path tolerance %g natively, %g with target unit %g (expected %g)", t0, t1, tu, t0 * f), fmt("part=unit tu=%g", tu)); ci = full0.cell_array.count; break; }
+                    }
+            }
             if (ul.unit != tu) viol(cx, "unit", "library-unit", {}, fmt("library.unit %g after loading with unit %g", ul.unit, tu), fmt("part=unit tu=%g", tu));
             if (ul.precision != full.precision) viol(cx, "unit", "precision", {}, fmt("precision %g differs from native %g", ul.precision, full.precision), fmt("part=unit tu=%g", tu));
             std::string e = compare_scaled(full, ul, f);
@@ -300,6 +313,7 @@ static void run_library(int variant, int ui) {
             R->count("cases");
             if (f != 1) R->count("nontrivial");
         }
+        full0.free_all();
     }
     // ---- (f) raw cells: every non-empty subset of cells, closed under dependencies
     {
